@@ -28,16 +28,32 @@
      accepted bytes as the payload); partial files after a failure are the subject of C10;
    * JSON coding of names is not modelled: NAME / SUCC payloads are typed records.
 
-   NOT modelled here (clearly marked extensions): the archive stream for directories
-   (protocol >= 4, overwrite off: Model/Archive.v, C15) and the prefix-hash resume exchange
-   (protocol >= 3 onto a non-empty existing file: Model/Resume.v, C08).  The machines enter
-   the phase [..Unmodelled] where the real code would start either of them; no theorem
-   counts that phase as success.
+   The two sub-protocols are composed in from their own models:
+   * the ARCHIVE stream (protocol >= 4, overwrite off: archiveSourceFiles bundles the entries of
+     one path id into its first entry, [tr_group]; that entry is named with archive:true and its
+     "file" is the stream of Model/Archive.v): the sender reads it through the archive reader
+     ([Archive.ar_reader_run], read sizes from the schedule), announces newArchiveReader's size,
+     and sends it like any file; the receiver writes the decoded stream through the archive writer
+     ([Archive.aw_writer_run], write sizes from the schedule) whose tree is the subtree below the
+     archive's local name ([tr_graft]).  The header line of an entry is abstract as in Archive.v:
+     [ahdr] / [aparse] are Section variables (encodeString(json) / decodeString + unmarshalSourceFile);
+   * the RESUME exchange (protocol >= 3 onto a non-empty existing file, overwrite on): the
+     functions of Model/Resume.v message by message - the sender emits the HASH records of
+     [Resume.send_hashes] (all of them before it looks at the answers: the largest window; the
+     schedule says after how many the hash goroutine observes stopNow), the receiver answers each
+     with one step of [Resume.recv_hashes] and cuts the file at its matchStep on Over, the sender
+     consumes the answers as [Resume.recv_acks] does and sends the rest of the file from its
+     matchStep.  The prefix digest (hex MD5) is the Section variable [hx].
+   Deviations (none reachable when the two machines talk to each other): an archive header that
+   carries another path id than the archive's is refused here (the real writer creates another
+   top-level name: KNOWN finding archive-entry-foreign-top-level, C07); effects of archive entries
+   are not entered into Names' effect log (C07's MEntry does that).
 
    Executable definitions only. *)
 From Coq Require Import ZArith.
 From Trzsz Require Export Base.Bytes.
 From Trzsz Require Import Gen.Consts Model.Path Model.Fs Model.Names Model.Escape Model.Base64 Model.Wire Model.RelayNeg.
+From Trzsz Require Model.Resume Model.Archive.
 
 (* ---- configuration (transferConfig as both ends hold it after the CFG line) ---- *)
 Record tr_cfg := mkTrCfg {
@@ -76,11 +92,12 @@ Definition tr_is_compress_fixed (c : tr_cfg) (size : N) : bool * bool :=
   tr_rules_eval Consts.tr_compress_rules c size.
 
 (* ---- source entries (checkPathsReadable's list) and the per-file schedule ---- *)
-Record tr_entry := mkTrEntry {
+Inductive tr_entry := mkTrEntry {
   te_id : Z;                      (* PathID *)
   te_rel : list name;             (* RelPath *)
   te_isdir : bool;                (* IsDir *)
-  te_chunks : list (list byte)    (* the reads of the file; its content is their concatenation *)
+  te_chunks : list (list byte);   (* the reads of the file; its content is their concatenation *)
+  te_subs : list tr_entry         (* SubFiles: filled by archiveSourceFiles ([tr_group]), [] otherwise *)
 }.
 Definition te_data (e : tr_entry) : list byte := concat (te_chunks e).
 Definition te_size (e : tr_entry) : N := if te_isdir e then 0 else N.of_nat (length (te_data e)).
@@ -90,13 +107,74 @@ Record tr_sched := mkTrSched {
   sc_sizes : list nat; sc_dflt : nat;   (* frame sizes (protocol >= 2) / chunk sizes (protocol 1) *)
   sc_profit : bool;                     (* isCompressionProfitable, consulted only when not fixed *)
   sc_steps : list N;                    (* savedSteps at the moment of each per-frame ack *)
-  sc_prefinal : list N                  (* savedSteps at each final-ack attempt before completion *)
+  sc_prefinal : list N;                 (* savedSteps at each final-ack attempt before completion *)
+  sc_hstops : option nat;               (* resume: after how many HASH lines the hash sender observes stopNow (None: never) *)
+  sc_rsizes : list nat; sc_rdflt : nat; (* archive: buffer sizes of the reads of the archive reader (each + 1) *)
+  sc_wsizes : list nat; sc_wdflt : nat  (* archive: how the decoded stream is cut into the writes of the archive writer *)
 }.
 
 Definition tr_add_name (names : list name) (nm : name) : list name :=
   if existsb (list_eqb nm) names then names else names ++ [nm].
 
 Definition tr_blen (l : list byte) : N := N.of_nat (length l).
+
+Definition tr_has_subs (e : tr_entry) : bool := nonempty (te_subs e).
+
+(* ---- archiveSourceFiles: with protocol >= 4 and overwrite off the entries of one path id are
+   bundled into the first entry of that id (its SubFiles), ids in the order of first occurrence.
+   (The Go code indexes an array of length last.PathID + 1 by PathID; for the lists
+   checkPathsReadable produces - ids 0, 1, 2, ... in non-decreasing order - that is the same.) ---- *)
+Definition tr_archive_mode (c : tr_cfg) : bool := (Consts.tr_proto_archive <=? tc_proto c) && negb (tc_overwrite c).
+Definition tr_same_id (e : tr_entry) (x : tr_entry * tr_sched) : bool := Z.eqb (te_id (fst x)) (te_id e).
+Definition tr_with_subs (e : tr_entry) (subs : list tr_entry) : tr_entry :=
+  mkTrEntry (te_id e) (te_rel e) (te_isdir e) (te_chunks e) subs.
+Fixpoint tr_group_go (n : nat) (ess : list (tr_entry * tr_sched)) : list (tr_entry * tr_sched) :=
+  match n, ess with
+  | S n', (e, sc) :: r =>
+    (tr_with_subs e (te_subs e ++ map fst (filter (tr_same_id e) r)), sc)
+      :: tr_group_go n' (filter (fun x => negb (tr_same_id e x)) r)
+  | _, _ => []
+  end.
+Definition tr_group (c : tr_cfg) (ess : list (tr_entry * tr_sched)) : list (tr_entry * tr_sched) :=
+  if tr_archive_mode c then tr_group_go (length ess) ess else ess.
+
+(* the entries an item stands for: itself and its SubFiles *)
+Definition tr_members (e : tr_entry) : list tr_entry := tr_with_subs e [] :: te_subs e.
+
+(* ---- the archive stream of an item: Model/Archive.v's entries ---- *)
+Definition tr_ameta (e : tr_entry) : Archive.ameta :=
+  Archive.mkAMeta (tl (te_rel e)) (te_isdir e) (Z.of_N (te_size e)).
+Definition tr_aentry (e : tr_entry) : Archive.aentry := Archive.mkAEntry (tr_ameta e) (te_data e).
+Definition tr_src (e : tr_entry) : src :=
+  {| s_id := te_id e; s_rel := te_rel e; s_isdir := te_isdir e; s_archive := false |}.
+Definition tr_anode (n : Archive.anode) : node := match n with Archive.ADir => Dir | Archive.AFile x => File x end.
+(* the tree of the archive writer, planted at [base] (= destination / local name of the archive);
+   the first binding of an [afs] wins, so the oldest is planted first *)
+Definition tr_graft (f : fs) (base : path) (t : Archive.afs) : fs :=
+  fold_right (fun pn f' => set f' (base ++ fst pn) (tr_anode (snd pn))) f t.
+Definition tr_set_fs (st : state) (f : fs) : state :=
+  {| st_fs := f; st_log := st_log st; st_created := st_created st; st_map := st_map st |}.
+Definition tr_graft_st (st : state) (base : path) (t : Archive.afs) : state := tr_set_fs st (tr_graft (st_fs st) base t).
+(* the content of an open file replaced (resume: cut at the agreed offset, the rest written behind) *)
+Definition tr_set_file (st : state) (p : path) (data : list byte) : state := tr_set_fs st (set (st_fs st) p (File data)).
+Definition tr_old_content (st : state) (p : path) : list byte :=
+  match lookup (st_fs st) p with Some (File old) => old | _ => [] end.
+
+(* the rest of a file from offset n, as the reads that follow file.Seek(n) *)
+Fixpoint tr_skip_chunks (n : nat) (cs : list (list byte)) : list (list byte) :=
+  match cs with
+  | [] => []
+  | ch :: r => if (length ch <=? n)%nat then tr_skip_chunks (n - length ch) r else skipn n ch :: r
+  end.
+Definition tr_rem_entry (e : tr_entry) (ms : Z) : tr_entry :=
+  mkTrEntry (te_id e) (te_rel e) false (tr_skip_chunks (Z.to_nat ms) (te_chunks e)) [].
+
+Definition tr_hash_B : N := Consts.prefix_hash_step.
+
+(* resume: the prefix digests compared do not collide - the premise of C08_identical, for a source
+   content and the content it meets at the destination *)
+Definition tr_no_collision (hx : list byte -> Resume.digest) (src old : list byte) : Prop :=
+  forall k, hx (firstn k src) = hx (firstn k old) -> firstn k src = firstn k old.
 
 Section Transfer.
 Variable digest : Type.
@@ -106,6 +184,9 @@ Variable zcomp : list (list byte) -> list (list byte).
 Variable zdecomp : list byte -> option (list byte).
 Variable zl : list byte -> list byte.
 Variable unzl : list byte -> option (list byte).
+Variable hx : list byte -> Resume.digest.          (* fmt.Sprintf("%x", md5) of a prefix (resume) *)
+Variable ahdr : src -> Z -> list byte.             (* archive header: encodeString(marshalSourceFile) of a record with its Size *)
+Variable aparse : list byte -> option (src * Z).   (* decodeString + json.Unmarshal of a header line *)
 
 (* ---- typed messages ---- *)
 Inductive tr_npayload :=
@@ -120,18 +201,21 @@ Inductive tr_msg :=
 | TrData (f : list byte)              (* #DATA: one frame (protocol >= 2; [] = the finish flag) or one coded chunk (protocol 1) *)
 | TrMd5 (d : digest)                  (* #MD5: *)
 | TrExit (names : list name)          (* #EXIT: the client's closing message with the names it reports *)
+| TrHash (step : Z) (h : Resume.digest) (* #HASH:{"step":..,"hash":..} *)
+| TrHashOver                          (* #HASH:{..,"over":true} *)
 | TrSuccInt (n : N)                   (* #SUCC:n — echo of NUM / SIZE, chunk length (protocol 1), final ack step *)
 | TrSuccName (nm : name)              (* #SUCC:<local name> *)
 | TrSuccTarget (nm : name) (size : N) (* #SUCC:{"name":..,"size":..} (protocol >= 3) *)
 | TrSuccAck (len step : N)            (* #SUCC:len/step *)
 | TrSuccDigest (d : digest)           (* #SUCC:<digest> *)
+| TrSuccHack (step : Z) (mtch : bool) (* #SUCC:{"step":..,"match":..} answering a HASH record *)
 | TrKeepAlive                         (* #DATA:= / #SUCC:= while pausing *)
 | TrFail.                             (* #FAIL: / #fail: *)
 
 (* ---- what both ends derive from an entry ---- *)
 Definition tr_payload (c : tr_cfg) (e : tr_entry) : tr_npayload :=
   if tr_json c then
-    TrJson {| s_id := te_id e; s_rel := te_rel e; s_isdir := te_isdir e; s_archive := false |} (te_size e)
+    TrJson {| s_id := te_id e; s_rel := te_rel e; s_isdir := te_isdir e; s_archive := tr_has_subs e |} (te_size e)
   else TrPlain (te_name e).
 
 (* sendCompressFlag: the decision and the COMP message if there is one *)
@@ -151,10 +235,57 @@ Definition tr_v1_chunks (e : tr_entry) (sc : tr_sched) : list (list byte) :=
 Definition tr_v1_payload (c : tr_cfg) (chunk : list byte) : list byte :=
   if tc_binary c then escape (tc_table c) chunk else wire_encode_bytes zl chunk.
 
+(* ---- the archive stream of an item ---- *)
+(* the header coding as Archive.v wants it, for the archive with path id [i] and top-level name [r0] *)
+Definition tr_hdr_of (i : Z) (r0 : name) (m : Archive.ameta) : list byte :=
+  ahdr {| s_id := i; s_rel := r0 :: Archive.am_path m; s_isdir := Archive.am_dir m; s_archive := false |} (Archive.am_size m).
+(* unmarshalSourceFile on a header line, then createDirOrFile's use of the record: the local name is
+   the one mapped to the path id, the path below it is RelPath[1:] *)
+Definition tr_parse_of (i : Z) (raw : list byte) : option Archive.ameta :=
+  match aparse raw with
+  | Some (s, sz) =>
+    match s_rel s with
+    | [] => None
+    | r0 :: rest =>
+      if chk_unmarshal code_checks && negb (forallb valid_name (r0 :: rest)) then None
+      else if Z.eqb (s_id s) i && negb (s_archive s) then Some (Archive.mkAMeta rest (s_isdir s) sz)
+      else None                       (* deviation: a foreign path id / a nested archive is refused here *)
+    end
+  | None => None
+  end.
+Definition tr_arch_hdr (e : tr_entry) : Archive.ameta -> list byte := tr_hdr_of (te_id e) (hd [] (te_rel e)).
+Definition tr_arch_entries (e : tr_entry) : list Archive.aentry := map tr_aentry (te_subs e).
+(* newArchiveReader's size *)
+Definition tr_arch_size (e : tr_entry) : Z := Archive.ar_total_size (tr_arch_hdr e) (tr_arch_entries e).
+(* the "file" the sender reads: archiveFileReader.Read with the buffer sizes of the schedule *)
+Definition tr_arch_entry (e : tr_entry) (sc : tr_sched) : option tr_entry :=
+  match Archive.ar_reader_run (tr_arch_hdr e) (tr_arch_entries e) (map S (sc_rsizes sc)) (S (sc_rdflt sc)) with
+  | (outs, Archive.ArEndEof, _) => Some (mkTrEntry (te_id e) (te_rel e) false outs [])
+  | _ => None
+  end.
+(* archiveFileWriter: the decoded stream, cut as the schedule says, written through the writer
+   (pipelineSaveData: one writeAll per decoded buffer); the tree below the archive's local name *)
+Definition tr_unarchive (i : Z) (sc : tr_sched) (w : list byte) : option Archive.afs :=
+  match Archive.aw_writer_run (tr_parse_of i) true (wire_frames (sc_wsizes sc) (sc_wdflt sc) w) with
+  | Archive.AwDone ast => Some (Archive.aw_fs (Archive.aw_close ast))
+  | _ => None
+  end.
+
+(* ---- the resume exchange ---- *)
+Definition tr_hmsg (m : Resume.hmsg) : tr_msg :=
+  match m with Resume.Hash s h => TrHash s h | Resume.Over => TrHashOver end.
+Definition tr_hack (a : Resume.ack) : tr_msg := TrSuccHack (Resume.a_step a) (Resume.a_match a).
+(* size := minInt64(srcFile.Size, tgtFile.Size) *)
+Definition tr_resume_size (e : tr_entry) (tsize : N) : nat := N.to_nat (N.min (tr_blen (te_data e)) tsize).
+(* sendPrefixHash announces the source size first when Protocol < 4 *)
+Definition tr_resume_pre (c : tr_cfg) (e : tr_entry) : list tr_msg :=
+  if tc_proto c <? Consts.tr_proto_resume_nosize then [TrSize (te_size e)] else [].
+
 (* ==================================== SENDER ==================================== *)
 Inductive tr_sphase :=
 | SpNum                                           (* NUM sent *)
 | SpName                                          (* NAME of the head entry sent *)
+| SpHash (size mstep : Z)                         (* resume: all HASH records sent; pipelineRecvHashAck with its matchStep *)
 | SpSize                                          (* SIZE sent *)
 | SpAcks (pending : list N)                       (* all frames sent; per-frame acks outstanding *)
 | SpFinal                                         (* pipelineRecvFinalAck *)
@@ -162,12 +293,13 @@ Inductive tr_sphase :=
 | SpMd5                                           (* MD5 sent *)
 | SpExit                                          (* server-side sender: recvExit *)
 | SpDone                                          (* success *)
-| SpFail
-| SpUnmodelled.                                   (* resume exchange would start here *)
+| SpFail.
 
 Record tr_sstate := mkSS {
   ss_phase : tr_sphase;
-  ss_todo : list (tr_entry * tr_sched);           (* head = the entry being sent *)
+  ss_todo : list (tr_entry * tr_sched);           (* head = the entry being sent; once its name exchange is over,
+                                                     the FILE whose data is sent: the entry itself, the rest of it
+                                                     behind the agreed offset (resume), or the archive stream *)
   ss_names : list name                            (* remoteNames *)
 }.
 
@@ -183,18 +315,42 @@ Definition tr_s_next (c : tr_cfg) (todo : list (tr_entry * tr_sched)) (names : l
   | (e, _) :: _ => (mkSS SpName todo names, [TrName (tr_payload c e)])
   end.
 
-Definition tr_sender_init (c : tr_cfg) (ess : list (tr_entry * tr_sched)) : tr_sstate * list tr_msg :=
-  (mkSS SpNum ess [], [TrNum (N.of_nat (length ess))]).
+(* [items]: the list sendFiles loops over, i.e. after archiveSourceFiles *)
+Definition tr_sender_init (c : tr_cfg) (items : list (tr_entry * tr_sched)) : tr_sstate * list tr_msg :=
+  (mkSS SpNum items [], [TrNum (N.of_nat (length items))]).
 
 Definition tr_s_md5 (st : tr_sstate) (e : tr_entry) : tr_sstate * list tr_msg :=
   (mkSS SpMd5 (ss_todo st) (ss_names st), [TrMd5 (H (te_data e))]).
 
+(* the file to send is known: sendFileSize *)
+Definition tr_s_size (f : tr_entry) (sc : tr_sched) (rest : list (tr_entry * tr_sched)) (names : list name) (n : N)
+  : tr_sstate * list tr_msg :=
+  (mkSS SpSize ((f, sc) :: rest) names, [TrSize n]).
+
+(* sendPrefixHash: [SIZE], the HASH records, and - when there is nothing to compare - the verdict at once *)
+Definition tr_s_resume (c : tr_cfg) (e : tr_entry) (sc : tr_sched) (rest : list (tr_entry * tr_sched))
+    (names : list name) (tsize : N) : tr_sstate * list tr_msg :=
+  let size := tr_resume_size e tsize in
+  match Resume.send_hashes tr_hash_B hx size (sc_hstops sc) (te_data e) size 0 [] with
+  | None => (mkSS SpFail ((e, sc) :: rest) names, [TrFail])
+  | Some hs =>
+    if (size =? 0)%nat then
+      (mkSS SpSize ((tr_rem_entry e 0, sc) :: rest) names,
+       tr_resume_pre c e ++ map tr_hmsg hs ++ [TrSize (te_size (tr_rem_entry e 0))])
+    else (mkSS (SpHash (Z.of_nat size) 0) ((e, sc) :: rest) names, tr_resume_pre c e ++ map tr_hmsg hs)
+  end.
+
 (* sendFileName / sendFileNameV3 after the reply *)
-Definition tr_s_named (c : tr_cfg) (st : tr_sstate) (e : tr_entry) (rest : list (tr_entry * tr_sched))
+Definition tr_s_named (c : tr_cfg) (st : tr_sstate) (e : tr_entry) (sc : tr_sched) (rest : list (tr_entry * tr_sched))
     (nm : name) (tsize : N) : tr_sstate * list tr_msg :=
   let names' := tr_add_name (ss_names st) nm in
-  if te_isdir e then tr_s_next c rest names'
-  else if 0 <? tsize then (mkSS SpUnmodelled (ss_todo st) names', [])
+  if tr_json_names c && tr_has_subs e then
+    match tr_arch_entry e sc with
+    | Some f => tr_s_size f sc rest names' (Z.to_N (tr_arch_size e))
+    | None => (mkSS SpFail (ss_todo st) names', [TrFail])
+    end
+  else if te_isdir e then tr_s_next c rest names'
+  else if 0 <? tsize then tr_s_resume c e sc rest names' tsize
   else (mkSS SpSize (ss_todo st) names', [TrSize (te_size e)]).
 
 (* sendFileSize's echo arrived: sendFileDataV2 / sendFileData *)
@@ -209,9 +365,21 @@ Definition tr_s_data (c : tr_cfg) (st : tr_sstate) (e : tr_entry) (sc : tr_sched
     | ch :: chs => (mkSS (SpV1 chs (tr_blen ch)) (ss_todo st) (ss_names st), [TrData (tr_v1_payload c ch)])
     end.
 
+(* pipelineRecvHashAck on one answer *)
+Definition tr_s_hack (st : tr_sstate) (size mstep step : Z) (mtch : bool) : tr_sstate * list tr_msg :=
+  match ss_todo st with
+  | (e, sc) :: rest =>
+    let verdict ms := tr_s_size (tr_rem_entry e ms) sc rest (ss_names st) (te_size (tr_rem_entry e ms)) in
+    if negb mtch then verdict mstep
+    else if (step =? size)%Z then verdict step
+    else if (size <? step)%Z then tr_s_fail st
+    else (mkSS (SpHash size step) (ss_todo st) (ss_names st), [])
+  | [] => tr_s_fail st
+  end.
+
 Definition tr_sender (c : tr_cfg) (st : tr_sstate) (m : tr_msg) : tr_sstate * list tr_msg :=
   match ss_phase st with
-  | SpDone | SpFail | SpUnmodelled => tr_s_stay st
+  | SpDone | SpFail => tr_s_stay st
   | ph =>
     match m with
     | TrFail => (mkSS SpFail (ss_todo st) (ss_names st), [])
@@ -225,13 +393,18 @@ Definition tr_sender (c : tr_cfg) (st : tr_sstate) (m : tr_msg) : tr_sstate * li
         end
       | SpName =>
         match ss_todo st with
-        | (e, _) :: rest =>
+        | (e, sc) :: rest =>
           match m with
-          | TrSuccName nm => if tr_json_names c then tr_s_fail st else tr_s_named c st e rest nm 0
-          | TrSuccTarget nm sz => if tr_json_names c then tr_s_named c st e rest nm sz else tr_s_fail st
+          | TrSuccName nm => if tr_json_names c then tr_s_fail st else tr_s_named c st e sc rest nm 0
+          | TrSuccTarget nm sz => if tr_json_names c then tr_s_named c st e sc rest nm sz else tr_s_fail st
           | _ => tr_s_fail st
           end
         | [] => tr_s_fail st
+        end
+      | SpHash size mstep =>
+        match m with
+        | TrSuccHack step mtch => tr_s_hack st size mstep step mtch
+        | _ => tr_s_fail st
         end
       | SpSize =>
         match ss_todo st, m with
@@ -278,7 +451,7 @@ Definition tr_sender (c : tr_cfg) (st : tr_sstate) (m : tr_msg) : tr_sstate * li
         | TrExit _ => (mkSS SpDone (ss_todo st) (ss_names st), [])
         | _ => tr_s_fail st
         end
-      | SpDone | SpFail | SpUnmodelled => tr_s_stay st
+      | SpDone | SpFail => tr_s_stay st
       end
     end
   end.
@@ -300,6 +473,8 @@ Definition tr_create (c : tr_cfg) (dest : path) (p : tr_npayload) (content : lis
 Definition tr_p_isdir (p : tr_npayload) : bool := match p with TrJson s _ => s_isdir s | TrPlain _ => false end.
 Definition tr_p_archive (p : tr_npayload) : bool := match p with TrJson s _ => s_archive s | TrPlain _ => false end.
 Definition tr_p_tail (p : tr_npayload) : list name := match p with TrJson s _ => tl (s_rel s) | TrPlain _ => [] end.
+Definition tr_p_aid (p : tr_npayload) : Z := match p with TrJson s _ => s_id s | TrPlain _ => 0%Z end.
+Definition tr_p_size (p : tr_npayload) : N := match p with TrJson _ size => size | TrPlain _ => 0 end.   (* srcFile.Size *)
 (* fullPath of createDirOrFile / createFile *)
 Definition tr_leaf (dest : path) (ln : name) (p : tr_npayload) : path := join dest (ln :: tr_p_tail p).
 (* file.Stat().Size() right after the file was opened *)
@@ -312,6 +487,9 @@ Definition tr_target_size (dest : path) (ln : name) (p : tr_npayload) (st : stat
 Inductive tr_rphase :=
 | RpNum
 | RpName
+| RpHSize (p : tr_npayload) (leaf : path) (old : list byte)                    (* resume, protocol 3: SIZE (not echoed) *)
+| RpHash (p : tr_npayload) (leaf : path) (old : list byte) (ssize : N) (r : Resume.rstate)
+                                                  (* recvPrefixHash's loop; [ssize] = the source size as announced *)
 | RpSize (p : tr_npayload)
 | RpComp (p : tr_npayload) (size : N)
 | RpData (p : tr_npayload) (size : N) (compress : bool) (acc : list (list byte)) (steps : list N)
@@ -319,22 +497,25 @@ Inductive tr_rphase :=
 | RpMd5 (p : tr_npayload) (w : list byte)
 | RpExit                                          (* server-side receiver: recvExit *)
 | RpDone
-| RpFail
-| RpUnmodelled.                                   (* archive stream or resume exchange would start here *)
+| RpFail.
 
-Record tr_rstate := mkRS {
+Record tr_rstate := mkRSx {
   rs_phase : tr_rphase;
   rs_left : nat;                 (* files still to come *)
   rs_st : Names.state;           (* file system, effect log, createdFiles, fileNameMap *)
   rs_names : list name;          (* localNames *)
-  rs_sched : list tr_sched       (* head = the schedule of the current entry *)
+  rs_sched : list tr_sched;      (* head = the schedule of the current entry *)
+  rs_open : option (path * Resume.file * Z)
+                                 (* resume: the existing file, cut at matchStep, offset there; resumeRestSize =
+                                    what the rest must measure (announced source size - matchStep) *)
 }.
+Notation mkRS ph left st names sch := (mkRSx ph left st names sch None).
 
 Definition tr_r_fail (st : tr_rstate) : tr_rstate * list tr_msg :=
-  (mkRS RpFail (rs_left st) (rs_st st) (rs_names st) (rs_sched st), [TrFail]).
+  (mkRSx RpFail (rs_left st) (rs_st st) (rs_names st) (rs_sched st) (rs_open st), [TrFail]).
 Definition tr_r_stay (st : tr_rstate) : tr_rstate * list tr_msg := (st, []).
 Definition tr_r_phase (st : tr_rstate) (ph : tr_rphase) : tr_rstate :=
-  mkRS ph (rs_left st) (rs_st st) (rs_names st) (rs_sched st).
+  mkRSx ph (rs_left st) (rs_st st) (rs_names st) (rs_sched st) (rs_open st).
 
 (* top of the loop in recvFiles; after the loop the client says EXIT, the server waits for it *)
 Definition tr_r_next (c : tr_cfg) (left : nat) (fst_ : Names.state) (names : list name) (sch : list tr_sched)
@@ -347,8 +528,9 @@ Definition tr_r_next (c : tr_cfg) (left : nat) (fst_ : Names.state) (names : lis
 Definition tr_receiver_init (f0 : fs) (sch : list tr_sched) : tr_rstate :=
   mkRS RpNum O (init_state f0) [] sch.
 
+Definition tr_dflt_sched : tr_sched := mkTrSched [] 1 false [] [] None [] 0 [] 1.
 Definition tr_cur_sched (st : tr_rstate) : tr_sched :=
-  match rs_sched st with sc :: _ => sc | [] => mkTrSched [] 1 false [] [] end.
+  match rs_sched st with sc :: _ => sc | [] => tr_dflt_sched end.
 
 (* one entry is finished: recvFiles' loop continues *)
 Definition tr_r_done (c : tr_cfg) (st : tr_rstate) (fst_ : Names.state) (outs : list tr_msg)
@@ -362,16 +544,45 @@ Definition tr_r_name (c : tr_cfg) (dest : path) (st : tr_rstate) (p : tr_npayloa
   | (NErr, _) => tr_r_fail st
   | (NOk ln, st1) =>
     let names' := tr_add_name (rs_names st) ln in
-    let tsize := if tr_p_isdir p then 0 else tr_target_size dest ln p st1 in
+    let tsize := if tr_p_isdir p || tr_p_archive p then 0 else tr_target_size dest ln p st1 in
     let reply := if tr_json_names c then TrSuccTarget ln tsize else TrSuccName ln in
-    let stn := mkRS (rs_phase st) (rs_left st) (rs_st st) names' (rs_sched st) in
-    if tr_p_archive p then (tr_r_phase stn RpUnmodelled, [reply])
+    let stn := mkRSx (rs_phase st) (rs_left st) (rs_st st) names' (rs_sched st) (rs_open st) in
+    if tr_p_archive p then (tr_r_phase stn (RpSize p), [reply])      (* the archive writer is the "file" *)
     else if tr_p_isdir p then tr_r_done c stn st1 [reply]
-    else if tr_json_names c && (0 <? tsize) then (tr_r_phase stn RpUnmodelled, [reply])
+    else if tr_json_names c && (0 <? tsize) then
+      let leaf := tr_leaf dest ln p in
+      let old := tr_old_content st1 leaf in
+      (tr_r_phase stn (if tc_proto c <? Consts.tr_proto_resume_nosize then RpHSize p leaf old
+                       else RpHash p leaf old (tr_p_size p) Resume.r_init), [reply])
     else (tr_r_phase stn (RpSize p), [reply])
   end.
 
+(* recvPrefixHash on one HASH record: one step of Resume.recv_hashes, the answers it appends *)
+Definition tr_r_hash (st : tr_rstate) (p : tr_npayload) (leaf : path) (old : list byte) (ssize : N) (r : Resume.rstate)
+    (step : Z) (h : Resume.digest) : tr_rstate * list tr_msg :=
+  match Resume.recv_hashes tr_hash_B hx old [Resume.Hash step h] r with
+  | Resume.RBlocked r' =>
+    (tr_r_phase st (RpHash p leaf old ssize r'), map tr_hack (skipn (length (Resume.r_acks r)) (Resume.r_acks r')))
+  | _ => tr_r_fail st
+  end.
+(* Over: file.Seek(matchStep), file.Truncate(matchStep); resumeRestSize = size - matchStep *)
+Definition tr_r_over (st : tr_rstate) (p : tr_npayload) (leaf : path) (old : list byte) (ssize : N) (r : Resume.rstate)
+  : tr_rstate * list tr_msg :=
+  let mr := Z.to_nat (Resume.r_mstep r) in
+  let f := Resume.f_truncate (Resume.f_seek (Resume.mkFile old (Resume.r_off r)) mr) mr in
+  (mkRSx (RpSize p) (rs_left st) (rs_st st) (rs_names st) (rs_sched st)
+         (Some (leaf, f, (Z.of_N ssize - Resume.r_mstep r)%Z)), []).
+
+(* recvFiles after recvFileSize (which has echoed the size): a resumed file whose announced rest is not the
+   source size minus the receiver's own offset is an error ("Resume offset mismatch") *)
+Definition tr_rest_mismatch (st : tr_rstate) (n : N) : bool :=
+  match rs_open st with
+  | Some (_, _, rest) => Consts.tr_resume_rest_check && ((0 <=? rest) && negb (Z.of_N n =? rest))%Z
+  | None => false
+  end.
+
 Definition tr_r_size (c : tr_cfg) (st : tr_rstate) (p : tr_npayload) (n : N) : tr_rstate * list tr_msg :=
+  if tr_rest_mismatch st n then (tr_r_phase st RpFail, [TrSuccInt n; TrFail]) else
   if tr_pipeline c then
     match tr_is_compress_fixed c n with
     | (true, cp) => (tr_r_phase st (RpData p n cp [] (sc_steps (tr_cur_sched st))), [TrSuccInt n])
@@ -381,6 +592,33 @@ Definition tr_r_size (c : tr_cfg) (st : tr_rstate) (p : tr_npayload) (n : N) : t
   else (tr_r_phase st (RpMd5 p []), [TrSuccInt n]).
 
 Definition tr_rdflt : nat := 1.   (* the decoder's read size: any positive value gives the same bytes (L1) *)
+
+(* what was written through the writer reaches the abstract file system: a plain file by re-running
+   Names' creation with the bytes; a resumed file by opening it again and placing the bytes behind the
+   cut; an archive by creating its directory again and planting the writer's tree below it *)
+Definition tr_complete (c : tr_cfg) (dest : path) (st : tr_rstate) (p : tr_npayload) (w : list byte) : option state :=
+  match rs_open st with
+  | Some (leaf, f, _) =>
+    match tr_create c dest p [] (rs_st st) with
+    | (NOk _, st2) => Some (tr_set_file st2 leaf (Resume.f_data (Resume.f_write f w)))
+    | (NErr, _) => None
+    end
+  | None =>
+    if tr_p_archive p then
+      match tr_create c dest p [] (rs_st st) with
+      | (NOk ln, st2) =>
+        match tr_unarchive (tr_p_aid p) (tr_cur_sched st) w with
+        | Some t => Some (tr_graft_st st2 (dest ++ [ln]) t)
+        | None => None
+        end
+      | (NErr, _) => None
+      end
+    else
+      match tr_create c dest p w (rs_st st) with
+      | (NOk _, st2) => Some st2
+      | (NErr, _) => None
+      end
+  end.
 
 (* one DATA message in the pipelined exchange *)
 Definition tr_r_frame (c : tr_cfg) (st : tr_rstate) (p : tr_npayload) (size : N) (cp : bool)
@@ -393,6 +631,10 @@ Definition tr_r_frame (c : tr_cfg) (st : tr_rstate) (p : tr_npayload) (size : N)
     | None => tr_r_fail st
     | Some w =>
       if tr_blen w =? size then
+        (* the archive writer has seen the whole stream by now: an error of its Write ends the transfer *)
+        if tr_p_archive p && match tr_unarchive (tr_p_aid p) (tr_cur_sched st) w with Some _ => false | None => true end
+        then tr_r_fail st
+        else
         (tr_r_phase st (RpMd5 p w),
          [TrSuccAck 0 step] ++ map TrSuccInt (filter (fun s => s <? size) (sc_prefinal (tr_cur_sched st)))
            ++ [TrSuccInt size])
@@ -414,15 +656,15 @@ Definition tr_r_v1 (c : tr_cfg) (st : tr_rstate) (p : tr_npayload) (size : N) (w
 Definition tr_r_md5 (c : tr_cfg) (dest : path) (st : tr_rstate) (p : tr_npayload) (w : list byte) (d : digest)
   : tr_rstate * list tr_msg :=
   if deq d (H w) then
-    match tr_create c dest p w (rs_st st) with
-    | (NOk _, st2) => tr_r_done c st st2 [TrSuccDigest (H w)]
-    | (NErr, _) => tr_r_fail st
+    match tr_complete c dest st p w with
+    | Some st2 => tr_r_done c st st2 [TrSuccDigest (H w)]
+    | None => tr_r_fail st
     end
   else tr_r_fail st.
 
 Definition tr_receiver (c : tr_cfg) (dest : path) (st : tr_rstate) (m : tr_msg) : tr_rstate * list tr_msg :=
   match rs_phase st with
-  | RpDone | RpFail | RpUnmodelled => tr_r_stay st
+  | RpDone | RpFail => tr_r_stay st
   | ph =>
     match m with
     | TrFail => (tr_r_phase st RpFail, [])
@@ -437,6 +679,14 @@ Definition tr_receiver (c : tr_cfg) (dest : path) (st : tr_rstate) (m : tr_msg) 
         | _ => tr_r_fail st
         end
       | RpName => match m with TrName p => tr_r_name c dest st p | _ => tr_r_fail st end
+      | RpHSize p leaf old =>
+        match m with TrSize n => (tr_r_phase st (RpHash p leaf old n Resume.r_init), []) | _ => tr_r_fail st end
+      | RpHash p leaf old ssize r =>
+        match m with
+        | TrHash step h => tr_r_hash st p leaf old ssize r step h
+        | TrHashOver => tr_r_over st p leaf old ssize r
+        | _ => tr_r_fail st
+        end
       | RpSize p => match m with TrSize n => tr_r_size c st p n | _ => tr_r_fail st end
       | RpComp p size =>
         match m with
@@ -452,7 +702,7 @@ Definition tr_receiver (c : tr_cfg) (dest : path) (st : tr_rstate) (m : tr_msg) 
       | RpV1 p size w => match m with TrData pl => tr_r_v1 c st p size w pl | _ => tr_r_fail st end
       | RpMd5 p w => match m with TrMd5 d => tr_r_md5 c dest st p w d | _ => tr_r_fail st end
       | RpExit => match m with TrExit _ => (tr_r_phase st RpDone, []) | _ => tr_r_fail st end
-      | RpDone | RpFail | RpUnmodelled => tr_r_stay st
+      | RpDone | RpFail => tr_r_stay st
       end
     end
   end.
@@ -491,78 +741,146 @@ Fixpoint tr_run_from (fuel : nat) (c : tr_cfg) (dest : path) (cf : tr_conf) : tr
   | S f => match tr_step c dest cf with Some cf' => tr_run_from f c dest cf' | None => cf end
   end.
 
-Definition tr_init (c : tr_cfg) (ess : list (tr_entry * tr_sched)) (f0 : fs) : tr_conf :=
-  match tr_sender_init c ess with
-  | (s, outs) => mkConf s (tr_receiver_init f0 (map snd ess)) outs [] (tr_tag_out true outs)
+Definition tr_init (c : tr_cfg) (items : list (tr_entry * tr_sched)) (f0 : fs) : tr_conf :=
+  match tr_sender_init c items with
+  | (s, outs) => mkConf s (tr_receiver_init f0 (map snd items)) outs [] (tr_tag_out true outs)
   end.
 
+(* the run on the list sendFiles loops over ... *)
+Definition tr_run_items (fuel : nat) (c : tr_cfg) (dest : path) (items : list (tr_entry * tr_sched)) (f0 : fs) : tr_conf :=
+  tr_run_from fuel c dest (tr_init c items f0).
+(* ... and on the list checkPathsReadable hands to sendFiles *)
 Definition tr_run (fuel : nat) (c : tr_cfg) (dest : path) (ess : list (tr_entry * tr_sched)) (f0 : fs) : tr_conf :=
-  tr_run_from fuel c dest (tr_init c ess f0).
+  tr_run_items fuel c dest (tr_group c ess) f0.
 
 Definition tr_sender_ok (cf : tr_conf) : bool := match ss_phase (cf_s cf) with SpDone => true | _ => false end.
 Definition tr_receiver_ok (cf : tr_conf) : bool := match rs_phase (cf_r cf) with RpDone => true | _ => false end.
 Definition tr_quiet (cf : tr_conf) : bool :=
   match cf_s2r cf, cf_r2s cf with [], [] => true | _, _ => false end.
 
-(* ---- the number of messages of a fault-free transfer = the fuel that suffices ---- *)
-Definition tr_entry_steps (c : tr_cfg) (es : tr_entry * tr_sched) : nat :=
-  let (e, sc) := es in
-  if te_isdir e then 2
-  else if tr_pipeline c then
-    2 + 2 + length (snd (tr_compress c e sc)) + 2 * S (length (tr_frames c e sc))
-      + length (filter (fun s => s <? te_size e) (sc_prefinal sc)) + 1 + 2
-  else 2 + 2 + 2 * length (tr_v1_chunks e sc) + 2.
-Definition tr_fuel (c : tr_cfg) (ess : list (tr_entry * tr_sched)) : nat :=
-  2 + fold_right (fun es n => tr_entry_steps c es + n)%nat 1%nat ess.
-
 (* ================================ SPECIFICATION ================================ *)
-(* what the receiver's file system goes through for one entry, as a function of the entry
-   alone: None = the receiver refuses (or an unmodelled exchange would start) *)
-Definition tr_spec_entry (c : tr_cfg) (dest : path) (e : tr_entry) (st : state) : option (name * state) :=
+(* the resume exchange of one file, as Model/Resume.v runs it: [old] = the existing content *)
+Definition tr_resume_run (c : tr_cfg) (e : tr_entry) (sc : tr_sched) (old : list byte) : Resume.result :=
+  Resume.run tr_hash_B hx (tc_proto c) (sc_hstops sc) (te_data e) old.
+
+(* what the receiver's file system goes through for one entry, as a function of the entry and its
+   schedule alone: None = the receiver refuses, or an exchange does not complete *)
+Definition tr_spec_entry (c : tr_cfg) (dest : path) (e : tr_entry) (sc : tr_sched) (st : state) : option (name * state) :=
   let p := tr_payload c e in
   if te_isdir e && negb (tr_json c) then None else      (* a directory cannot be named in plain mode *)
   match tr_create c dest p [] st with
   | (NErr, _) => None
   | (NOk ln, st1) =>
-    if te_isdir e then Some (ln, st1)
-    else if tr_json_names c && (0 <? tr_target_size dest ln p st1) then None
+    if tr_has_subs e then
+      match tr_arch_entry e sc with
+      | Some f =>
+        match tr_unarchive (te_id e) sc (te_data f) with
+        | Some t => Some (ln, tr_graft_st st1 (dest ++ [ln]) t)
+        | None => None
+        end
+      | None => None
+      end
+    else if te_isdir e then Some (ln, st1)
+    else if tr_json_names c && (0 <? tr_target_size dest ln p st1) then
+      match tr_resume_run c e sc (tr_old_content st1 (tr_leaf dest ln p)) with
+      | Resume.Done o => Some (ln, tr_set_file st1 (tr_leaf dest ln p) (Resume.o_final o))
+      | _ => None
+      end
     else match tr_create c dest p (te_data e) st with
          | (NOk _, st2) => Some (ln, st2)
          | (NErr, _) => None
          end
   end.
 
-Fixpoint tr_spec (c : tr_cfg) (dest : path) (es : list tr_entry) (st : state) (names : list name)
-  : option (list name * list name * state) :=    (* (names per entry, deduplicated names, state) *)
-  match es with
+Fixpoint tr_spec (c : tr_cfg) (dest : path) (items : list (tr_entry * tr_sched)) (st : state) (names : list name)
+  : option (list name * list name * state) :=    (* (names per item, deduplicated names, state) *)
+  match items with
   | [] => Some ([], names, st)
-  | e :: es' =>
-    match tr_spec_entry c dest e st with
+  | (e, sc) :: items' =>
+    match tr_spec_entry c dest e sc st with
     | None => None
     | Some (ln, st') =>
-      match tr_spec c dest es' st' (tr_add_name names ln) with
+      match tr_spec c dest items' st' (tr_add_name names ln) with
       | Some (per, all, stf) => Some (ln :: per, all, stf)
       | None => None
       end
     end
   end.
 
+(* the premise about the prefix digests, along the run: for every entry, the non-empty file it meets
+   at its place (if it meets one) - exactly the contents whose prefixes the resume exchange compares *)
+Definition tr_coll_ok (c : tr_cfg) (dest : path) (e : tr_entry) (st : state) : Prop :=
+  forall ln st1, tr_create c dest (tr_payload c e) [] st = (NOk ln, st1) ->
+    tr_old_content st1 (tr_leaf dest ln (tr_payload c e)) <> [] ->
+    tr_no_collision hx (te_data e) (tr_old_content st1 (tr_leaf dest ln (tr_payload c e))).
+Fixpoint tr_resume_safe (c : tr_cfg) (dest : path) (items : list (tr_entry * tr_sched)) (st : state) : Prop :=
+  match items with
+  | [] => True
+  | (e, sc) :: r =>
+    tr_coll_ok c dest e st /\
+    match tr_spec_entry c dest e sc st with Some (_, st') => tr_resume_safe c dest r st' | None => True end
+  end.
+
+(* ---- the number of messages of a fault-free transfer = the fuel that suffices.  In the resume
+   exchange it depends on what is at the destination, so it is computed along the specification ---- *)
+(* SIZE, echo, [COMP], frames, finish flag, acks, final acks, MD5, digest reply *)
+Definition tr_tail_steps (c : tr_cfg) (e : tr_entry) (sc : tr_sched) : nat :=
+  if tr_pipeline c then
+    2 + length (snd (tr_compress c e sc)) + 2 * S (length (tr_frames c e sc))
+      + length (filter (fun s => s <? te_size e) (sc_prefinal sc)) + 1 + 2
+  else 2 + 2 * length (tr_v1_chunks e sc) + 2.
+Definition tr_entry_steps (c : tr_cfg) (dest : path) (e : tr_entry) (sc : tr_sched) (st : state) : nat :=
+  2 +
+  match tr_create c dest (tr_payload c e) [] st with
+  | (NErr, _) => 0
+  | (NOk ln, st1) =>
+    if tr_json_names c && tr_has_subs e then
+      match tr_arch_entry e sc with Some f => tr_tail_steps c f sc | None => 1 end
+    else if te_isdir e then 0
+    else if tr_json_names c && (0 <? tr_target_size dest ln (tr_payload c e) st1) then
+      match tr_resume_run c e sc (tr_old_content st1 (tr_leaf dest ln (tr_payload c e))) with
+      | Resume.Done o =>
+        length (tr_resume_pre c e) + length (Resume.o_hashes o) + length (Resume.o_acks o)
+          + tr_tail_steps c (tr_rem_entry e (Resume.o_msend o)) sc
+      | Resume.SenderBlocked hs acks => length (tr_resume_pre c e) + length hs + length acks
+      | _ => 0
+      end
+    else tr_tail_steps c e sc
+  end.
+Fixpoint tr_fuel_go (c : tr_cfg) (dest : path) (items : list (tr_entry * tr_sched)) (st : state) : nat :=
+  match items with
+  | [] => 1
+  | (e, sc) :: r =>
+    tr_entry_steps c dest e sc st +
+    match tr_spec_entry c dest e sc st with Some (_, st') => tr_fuel_go c dest r st' | None => 0 end
+  end.
+Definition tr_fuel_items (c : tr_cfg) (dest : path) (items : list (tr_entry * tr_sched)) (f0 : fs) : nat :=
+  2 + tr_fuel_go c dest items (init_state f0).
+Definition tr_fuel (c : tr_cfg) (dest : path) (ess : list (tr_entry * tr_sched)) (f0 : fs) : nat :=
+  tr_fuel_items c dest (tr_group c ess) f0.
+
 (* ================================ TRANSCRIPT SHAPE ================================ *)
-Inductive tr_tag := TgNum | TgSucc | TgName | TgSize | TgComp | TgData | TgFinish | TgAck | TgMd5 | TgExit | TgOther.
+Inductive tr_tag := TgNum | TgSucc | TgName | TgSize | TgComp | TgData | TgFinish | TgAck | TgMd5 | TgExit
+                  | TgHash | TgOver | TgHack | TgOther.
 
 Definition tr_tag_of (m : tr_msg) : tr_tag :=
   match m with
   | TrNum _ => TgNum | TrName _ => TgName | TrSize _ => TgSize | TrComp _ => TgComp
   | TrData [] => TgFinish | TrData _ => TgData | TrMd5 _ => TgMd5 | TrExit _ => TgExit
+  | TrHash _ _ => TgHash | TrHashOver => TgOver | TrSuccHack _ _ => TgHack
   | TrSuccInt _ | TrSuccName _ | TrSuccTarget _ _ | TrSuccDigest _ => TgSucc
   | TrSuccAck _ _ => TgAck
   | TrKeepAlive | TrFail => TgOther
   end.
 
-(* the grammar  NUM SUCC (NAME SUCC [SIZE SUCC [COMP] DATA* finish ack* SUCC+ MD5 SUCC])* EXIT
-   (pipelined) resp.  NUM SUCC (NAME SUCC [SIZE SUCC (DATA SUCC)* MD5 SUCC])* EXIT  (legacy)
-   as a deterministic automaton *)
-Inductive tr_q := Q0 | Q1 | Q2 | Q3 | Q4 | Q5 | Q6 | Q7 | Q8 | Q9 | Q10 | Q11 | QE.
+(* the grammar
+     NUM SUCC (NAME SUCC [resume] [SIZE SUCC [COMP] DATA* finish ack* SUCC+ MD5 SUCC])* EXIT       (pipelined)
+       resume = [SIZE] (HASH | hash-ack)* Over hash-ack*      (protocol >= 3; the SIZE only below protocol 4)
+     NUM SUCC (NAME SUCC [SIZE SUCC (DATA SUCC)* MD5 SUCC])* EXIT                                    (legacy)
+   as a deterministic automaton.  An archive is a NAME whose file is the archive stream: the same
+   words.  HASH records and their answers travel in opposite directions at the same time, so every
+   interleaving of the two is a word. *)
+Inductive tr_q := Q0 | Q1 | Q2 | Q3 | Q4 | Q5 | Q6 | Q7 | Q8 | Q9 | Q10 | Q11 | QH | QO | QE.
 
 Definition tr_delta (pipe : bool) (q : tr_q) (t : tr_tag) : option tr_q :=
   match q, t with
@@ -574,7 +892,16 @@ Definition tr_delta (pipe : bool) (q : tr_q) (t : tr_tag) : option tr_q :=
   | Q4, TgName => Some Q3            (* Q4: after a name reply *)
   | Q4, TgExit => Some QE
   | Q4, TgSize => Some Q5
+  | Q4, TgHash => if pipe then Some QH else None     (* resume, protocol >= 4 *)
+  | Q4, TgOver => if pipe then Some QO else None
   | Q5, TgSucc => Some Q6
+  | Q5, TgHash => if pipe then Some QH else None     (* resume, protocol 3: the SIZE before was not a sendFileSize *)
+  | Q5, TgOver => if pipe then Some QO else None
+  | QH, TgHash => Some QH
+  | QH, TgHack => Some QH
+  | QH, TgOver => Some QO
+  | QO, TgHack => Some QO
+  | QO, TgSize => Some Q5
   | Q6, TgComp => if pipe then Some Q7 else None
   | Q6, TgData => if pipe then Some Q7 else Some Q11
   | Q6, TgFinish => if pipe then Some Q8 else Some Q11   (* legacy: a chunk whose coding is empty is still a DATA message *)
@@ -603,6 +930,7 @@ Definition tr_shape_ok (pipe : bool) (log : list (bool * tr_msg)) : bool :=
   end.
 
 End Transfer.
+Notation mkRS ph left st names sch := (mkRSx ph left st names sch None).
 
 (* ============================ WHAT THE THEOREMS SAY ============================ *)
 Definition tr_p_id (p : tr_npayload) : option Z := match p with TrJson s _ => Some (s_id s) | TrPlain _ => None end.
@@ -613,23 +941,35 @@ Definition tr_tail (c : tr_cfg) (e : tr_entry) : list name := tr_p_tail (tr_payl
 Definition tr_node (e : tr_entry) : node := if te_isdir e then Dir else File (te_data e).
 Definition tr_key (c : tr_cfg) (e : tr_entry) : name := tr_p_head (tr_payload c e).
 
-(* the source list as checkPathsReadable / checkDuplicateNames leave it:
+(* the SubFiles of an item as archiveSourceFiles and a directory scan leave them: of the item's path
+   id and below its top-level name, themselves without SubFiles, no path twice, none the archive's
+   root, none below a file ([Archive.awf_tree]) *)
+Definition tr_subs_wf (e : tr_entry) : Prop :=
+  (forall s, In s (te_subs e) -> te_id s = te_id e /\ te_subs s = [] /\ hd [] (te_rel s) = hd [] (te_rel e) /\ te_rel s <> []) /\
+  Archive.awf_tree (tr_arch_entries e).
+
+(* the list sendFiles loops over, as checkPathsReadable / checkDuplicateNames / archiveSourceFiles leave it:
    overwrite off, JSON names: no two entries with the same path id and the same path below the
    top-level name, and the first entry of every path id is the top-level one;
-   overwrite on: no two entries with the same relative path (plain mode: the same name) *)
+   overwrite on: no two entries with the same relative path (plain mode: the same name);
+   SubFiles only in archive mode (protocol >= 4, overwrite off), then one item per path id *)
 Definition tr_wf (c : tr_cfg) (es : list tr_entry) : Prop :=
   (tc_overwrite c = false -> tr_json c = true ->
      NoDup (map (fun e => (te_id e, tl (te_rel e))) es) /\
      (forall pre e post, es = pre ++ e :: post -> tl (te_rel e) <> [] -> exists e', In e' pre /\ te_id e' = te_id e)) /\
-  (tc_overwrite c = true -> NoDup (map (fun e => tr_key c e :: tr_tail c e) es)).
+  (tc_overwrite c = true -> NoDup (map (fun e => tr_key c e :: tr_tail c e) es)) /\
+  (forall e, In e es -> te_subs e <> [] -> tr_archive_mode c = true /\ tr_subs_wf e) /\
+  (tr_archive_mode c = true -> NoDup (map te_id es)).
 
-(* the destination [ff] holds the source entries [es] under the names [per] (one per entry; [all] is
-   their deduplicated list): same relative structure, same bytes; with overwrite on the names are the
-   ones sent, with overwrite off they did not exist in [f0] and do now; nothing that existed is gone *)
+(* the destination [ff] holds the items [es] under the names [per] (one per item; [all] is
+   their deduplicated list): every member of an item (itself and its SubFiles) at its relative path
+   below the item's name with its bytes; with overwrite on the names are the ones sent, with overwrite
+   off they did not exist in [f0] and do now; nothing that existed is gone *)
 Definition tr_tree_at (c : tr_cfg) (d : path) (f0 ff : fs) (es : list tr_entry) (per all : list name) : Prop :=
   length per = length es /\
   (forall ln, In ln all <-> In ln per) /\ NoDup all /\
-  (forall e ln, In (e, ln) (combine es per) -> lookup ff (d ++ ln :: tr_tail c e) = Some (tr_node e)) /\
+  (forall e ln, In (e, ln) (combine es per) ->
+     forall m, In m (tr_members e) -> lookup ff (d ++ ln :: tr_tail c m) = Some (tr_node m)) /\
   (tc_overwrite c = true -> forall e ln, In (e, ln) (combine es per) -> ln = tr_key c e) /\
   (tc_overwrite c = false -> forall e ln, In (e, ln) (combine es per) ->
      lookup f0 (d ++ [ln]) = None /\ lookup ff (d ++ [ln]) <> None) /\
@@ -637,13 +977,27 @@ Definition tr_tree_at (c : tr_cfg) (d : path) (f0 ff : fs) (es : list tr_entry) 
 
 (* both sides report success with the same names, the queues are empty, the tree is there, the
    client's EXIT message carries exactly these names, and the transcript has the shape of the grammar *)
-Definition tr_outcome_ok {digest : Type} (c : tr_cfg) (d : path) (f0 : fs) (ess : list (tr_entry * tr_sched))
+Definition tr_outcome_ok {digest : Type} (c : tr_cfg) (d : path) (f0 : fs) (items : list (tr_entry * tr_sched))
     (cf : tr_conf digest) : Prop :=
   tr_sender_ok digest cf = true /\ tr_receiver_ok digest cf = true /\ tr_quiet digest cf = true /\
   exists per all, ss_names (cf_s digest cf) = all /\ rs_names (cf_r digest cf) = all /\
-    tr_tree_at c d f0 (st_fs (rs_st (cf_r digest cf))) (map fst ess) per all /\
+    tr_tree_at c d f0 (st_fs (rs_st (cf_r digest cf))) (map fst items) per all /\
     (exists L, cf_log digest cf = L ++ [(tc_upload c, TrExit digest all)]) /\   (* the names the client reports *)
     tr_shape_ok digest (tr_pipeline c) (cf_log digest cf) = true.
+
+(* ---- the premises about the abstract external functions, for the data at hand only ---- *)
+(* archive headers: the writer's decoder inverts the reader's encoder on the SubFiles of the items, an
+   encoded header contains no newline, and checkFileName accepts the names (they come from a directory scan) *)
+Definition tr_hdr_ok1 (ahdr : src -> Z -> list byte) (aparse : list byte -> option (src * Z)) (s : tr_entry) : Prop :=
+  aparse (ahdr (tr_src s) (Z.of_N (te_size s))) = Some (tr_src s, Z.of_N (te_size s)) /\
+  ~ In Consts.archive_newline (ahdr (tr_src s) (Z.of_N (te_size s))) /\
+  forallb valid_name (te_rel s) = true /\
+  bytes_ok (ahdr (tr_src s) (Z.of_N (te_size s))) = true.
+Definition tr_hdrs_ok (ahdr : src -> Z -> list byte) (aparse : list byte -> option (src * Z)) (es : list tr_entry) : Prop :=
+  forall e s, In e es -> In s (te_subs e) -> tr_hdr_ok1 ahdr aparse s.
+(* the contents are bytes: of the items and of their SubFiles *)
+Definition tr_bytes_ok (items : list (tr_entry * tr_sched)) : Prop :=
+  Forall (fun es => Forall (fun m => bytes_ok (te_data m) = true) (tr_members (fst es))) items.
 
 (* ---- a sufficient condition on the inputs for the receiver to accept every entry ---- *)
 Definition tr_len_ok (n : name) : Prop := (name_max <? name_len n) = false.           (* at most NAME_MAX bytes *)
@@ -654,17 +1008,38 @@ Definition tr_entry_clean (c : tr_cfg) (e : tr_entry) : Prop :=
   Forall tr_name_fine (tr_key c e :: tr_tail c e) /\ (tr_json c = true -> te_rel e <> []) /\
   (te_isdir e = true -> tr_json c = true).
 Definition tr_leaf_of (c : tr_cfg) (d : path) (e : tr_entry) : path := d ++ tr_key c e :: tr_tail c e.
+(* the hash sender stops (if at all) only after the verdict: stopNow is set once the ack reader has
+   delivered matchStep *)
+Definition tr_stops_ok (hx : list byte -> Resume.digest) (sc : tr_sched) (src old : list byte) : Prop :=
+  match sc_hstops sc with
+  | None => True
+  | Some k =>
+    let size := Nat.min (length src) (length old) in
+    (Resume.good_blocks tr_hash_B hx size src old size 0 < k)%nat
+  end.
+(* what may be in the way of an entry: nothing - or, with overwrite on, a regular file where a file goes
+   (protocol >= 3 resumes onto it: then the hash sender stops only after the verdict, and the prefix
+   digests compared do not collide) *)
+Definition tr_place_ok (hx : list byte -> Resume.digest) (c : tr_cfg) (d : path) (f0 : fs) (es : tr_entry * tr_sched) : Prop :=
+  lookup f0 (tr_leaf_of c d (fst es)) = None \/
+  (tc_overwrite c = true /\ te_isdir (fst es) = false /\
+   exists old, lookup f0 (tr_leaf_of c d (fst es)) = Some (File old) /\
+     tr_stops_ok hx (snd es) (te_data (fst es)) old /\ tr_no_collision hx (te_data (fst es)) old).
 (* clean names; no two entries at one place; every entry below the top level comes after its
    parent directory, which has the same path id; entries share a path id exactly when they share
-   the top-level name; and nothing is in the way at the destination *)
-Definition tr_ready (c : tr_cfg) (d : path) (f0 : fs) (es : list tr_entry) : Prop :=
+   the top-level name; nothing but (overwrite on) a regular file in the way at the destination;
+   SubFiles only in archive mode, as [tr_wf] wants them, below a directory; then one item per path id *)
+Definition tr_ready (hx : list byte -> Resume.digest) (c : tr_cfg) (d : path) (f0 : fs) (items : list (tr_entry * tr_sched)) : Prop :=
+  let es := map fst items in
   Forall (tr_entry_clean c) es /\
   NoDup (map (fun e => tr_key c e :: tr_tail c e) es) /\
   (forall pre e post, es = pre ++ e :: post -> tr_tail c e <> [] ->
      exists e', In e' pre /\ te_isdir e' = true /\ te_id e' = te_id e /\
        tr_key c e' :: tr_tail c e' = removelast (tr_key c e :: tr_tail c e)) /\
   (forall e e', In e es -> In e' es -> (te_id e = te_id e' <-> tr_key c e = tr_key c e')) /\
-  (forall e, In e es -> lookup f0 (tr_leaf_of c d e) = None).
+  (forall it, In it items -> tr_place_ok hx c d f0 it) /\
+  (forall e, In e es -> te_subs e <> [] -> tr_archive_mode c = true /\ tr_subs_wf e /\ te_isdir e = true) /\
+  (tr_archive_mode c = true -> NoDup (map te_id es)).
 
 (* the escape table is absent or well-formed *)
 Definition tr_table_ok (c : tr_cfg) : Prop := tc_table c = [] \/ wf (tc_table c) = true.
@@ -681,12 +1056,20 @@ Fixpoint tr_first_top (seen : list Z) (es : list tr_entry) : bool :=
   | e :: r =>
     (match tl (te_rel e) with [] => true | _ => existsb (Z.eqb (te_id e)) seen end) && tr_first_top (te_id e :: seen) r
   end.
+Definition tr_subs_wfb (e : tr_entry) : bool :=
+  forallb (fun s => Z.eqb (te_id s) (te_id e) && negb (tr_has_subs s) && list_eqb (hd [] (te_rel s)) (hd [] (te_rel e))
+                    && nonempty (te_rel s)) (te_subs e) &&
+  tr_nodupb Archive.apath_eqb (map (fun s => tl (te_rel s)) (te_subs e)) &&
+  forallb (fun s => nonempty (tl (te_rel s))) (te_subs e) &&
+  forallb (fun s => te_isdir s || forallb (fun s' => negb (Archive.apath_proper_prefix (tl (te_rel s)) (tl (te_rel s')))) (te_subs e)) (te_subs e).
 Definition tr_wfb (c : tr_cfg) (es : list tr_entry) : bool :=
-  if tc_overwrite c then tr_nodupb path_eqb (map (fun e => tr_key c e :: tr_tail c e) es)
-  else if tr_json c then
-    tr_nodupb (fun a b => Z.eqb (fst a) (fst b) && path_eqb (snd a) (snd b)) (map (fun e => (te_id e, tl (te_rel e))) es)
-    && tr_first_top [] es
-  else true.
+  (if tc_overwrite c then tr_nodupb path_eqb (map (fun e => tr_key c e :: tr_tail c e) es)
+   else if tr_json c then
+     tr_nodupb (fun a b => Z.eqb (fst a) (fst b) && path_eqb (snd a) (snd b)) (map (fun e => (te_id e, tl (te_rel e))) es)
+     && tr_first_top [] es
+   else true) &&
+  forallb (fun e => negb (tr_has_subs e) || (tr_archive_mode c && tr_subs_wfb e)) es &&
+  (negb (tr_archive_mode c) || tr_nodupb Z.eqb (map te_id es)).
 
 (* ---- the configuration both ends hold after the negotiation of Model/RelayNeg.v (C14) ---- *)
 Definition tr_cfg_of (nc : n_config) (upload : bool) : tr_cfg :=
